@@ -14,6 +14,12 @@ TRUST = ("Trusted base: the Go type checker, golang.org/x/tools v0.29.0 go/packa
 P = {
  "C01": ("proof", "path-condition implication (truth table) + call-graph layering + slice provenance on go/ssa",
          "All-paths safety: deletes are issued only for nodes the reapers appended under taint-time-readable ∧ ((age>soft ∧ empty) ∨ age>hard) / force ∧ empty, from the classifier's tainted lists, reading only the node's own stored taint time.", "§4 C01"),
+ "C02": ("proof", "path-condition implication at every action-reaching call + must-pass-through on the CFG + boolean field post-state analysis of the lock methods",
+         "No action-reaching call in the scan body runs unless a locked() test on the group's lock was false on that path; the lock is armed exactly after a successful cloud increase; locked() ⇒ elapsed < cool-down.", "§4 C02"),
+ "C03": ("proof", "linear-fact entailment (case-split Fourier–Motzkin over path conditions) + bounded-accumulator loop recogniser + provenance",
+         "Per scan: successful taint writes ≤ max(0, |untainted| − min_nodes), only on members of the untainted list, none when below the minimum.", "§4 C03"),
+ "C04": ("proof", "linear-fact entailment through the inlined clamp helper at the single resize site",
+         "At the only IncreaseSize call: d ≥ 1, TargetSize + d ≤ MaxSize and ≤ max_nodes on every path; all actions are behind the node-count bounds guard.", "§4 C04"),
  "C09": ("proof", "path-condition implication + interprocedural provenance of action arguments",
          "No action site can receive a node that was cordoned in the scan's snapshot, and capacity/counts come from the untainted list only.", "§4 C09"),
  "C10": ("proof", "path-condition implication + loop-shape recogniser + who-may-call",
